@@ -1,7 +1,7 @@
 (** Model/WrapsRun.v — correspondence cases for [wraps]/[check]: each case carries what the
     real decorators did (observed arguments, returned object or error class); [c17_ok] says
     whether the model agrees.  The unit table below is written by hand (independent of pint's
-    definition files): only the units the harness generates. *)
+    definition files): only the units the harness generates (offset units: degC 273.15 = 5463/20, degF 5/9 and 459.67*5/9 = 45967/180). *)
 From PintV Require Import Model.UC Model.Wraps.
 Open Scope string_scope.
 
@@ -12,6 +12,7 @@ Definition dimV : uc := mkuc [("[length]", mkq 1 1); ("[time]", mkq (-1) 1)].
 Definition dimF : uc := mkuc [("[length]", mkq 1 1); ("[mass]", mkq 1 1); ("[time]", mkq (-2) 1)].
 Definition dimVol : uc := mkuc [("[length]", mkq 3 1)].
 Definition dimHz : uc := mkuc [("[time]", mkq (-1) 1)].
+Definition dimTh : uc := mkuc [("[temperature]", mkq 1 1)].
 
 Definition std_entries : list (string * uinfo) :=
   [ ("meter", UI (mkq 1 1) dimL); ("m", UI (mkq 1 1) dimL); ("metre", UI (mkq 1 1) dimL);
@@ -32,6 +33,12 @@ Definition std_entries : list (string * uinfo) :=
     ("liter", UI (mkq 1 1000) dimVol); ("l", UI (mkq 1 1000) dimVol);
     ("knot", UI (mkq 463 900) dimV);
     ("radian", UI (mkq 1 1) ∅); ("rad", UI (mkq 1 1) ∅); ("count", UI (mkq 1 1) ∅);
+    ("kelvin", UI (mkq 1 1) dimTh); ("K", UI (mkq 1 1) dimTh);
+    ("degree_Celsius", UIo (mkq 1 1) (mkq 5463 20) dimTh); ("degC", UIo (mkq 1 1) (mkq 5463 20) dimTh);
+    ("celsius", UIo (mkq 1 1) (mkq 5463 20) dimTh);
+    ("degree_Fahrenheit", UIo (mkq 5 9) (mkq 45967 180) dimTh); ("degF", UIo (mkq 5 9) (mkq 45967 180) dimTh);
+    ("fahrenheit", UIo (mkq 5 9) (mkq 45967 180) dimTh);
+    ("[temperature]", UI (mkq 1 1) dimTh);
     ("[length]", UI (mkq 1 1) dimL); ("[time]", UI (mkq 1 1) dimT); ("[mass]", UI (mkq 1 1) dimM);
     ("[speed]", UI (mkq 1 1) dimV); ("[velocity]", UI (mkq 1 1) dimV); ("[force]", UI (mkq 1 1) dimF);
     ("[volume]", UI (mkq 1 1) dimVol); ("[frequency]", UI (mkq 1 1) dimHz) ].
